@@ -1,26 +1,6 @@
-import IsoMdl.Model.Report
+import IsoMdl.Model.ReportWire
 namespace IsoMdl.Driver
 open IsoMdl IsoMdl.Report
-
-def txb (s : String) : Cbor := .text (s.toList.map fun c => UInt8.ofNat c.toNat)
-
-def mapGetB (m : List (Cbor × Cbor)) (k : Cbor) : Option Cbor := (m.find? fun e => e.1 == k).map (·.2)
-
-/-- (identifier, value) of one IssuerSignedItemBytes -/
-def itemOf : Cbor → Option (Bytes × Cbor)
-  | .tag 24 (.bytes b) => match Cbor.decodeAll b with
-    | some (.map m) => match mapGetB m (txb "elementIdentifier"), mapGetB m (txb "elementValue") with
-      | some (.text id), some v => some (id, v)
-      | _, _ => none
-    | _ => none
-  | _ => none
-
-/-- `IssuerSigned.nameSpaces`: namespace ↦ items; a repeated namespace key: the last one counts (BTreeMap) -/
-def namespacesOf : Cbor → Option (List (Bytes × List (Bytes × Cbor)))
-  | .map m => (m.reverse.mapM fun e => match e with
-    | (.text ns, .array items) => (items.mapM itemOf).map fun its => (ns, its)
-    | _ => none)
-  | _ => none
 
 def reportOp : List String → Option String
   | ["report.ns", h] => do
